@@ -115,7 +115,7 @@ def _strategy(exact):
                 mkind = draw(st.sampled_from(gen.MEASURE_KINDS))
                 case["mkind"] = mkind
                 case["cache"] = draw(st.sampled_from(gen.CACHES))
-                case["m"] = draw(gen.measure_params(mkind, R, D, draw(st.sampled_from([10.0, 100.0])), extreme=True))
+                case["m"] = draw(gen.measure_params(mkind, R, D, draw(st.sampled_from([10.0, 100.0])), extreme=True, hetero=True))
             return case
         return s()
     return make
